@@ -213,3 +213,44 @@ def selftest(pp):
             except ValueError:
                 continue
             raise AssertionError(f"{f.__name__} accepted {bad!r}")
+
+
+# ---- exact linear algebra (feasibility classification only) -----------------------------------------------------
+def solve_exact(rows, rhs):
+    """Gaussian elimination over Fractions.  rows: list of lists, rhs: list.  Returns
+    ('unique', x, max relative residual of redundant rows) | ('underdetermined',) | ('inconsistent', residual)."""
+    m, n = len(rows), len(rows[0])
+    A = [list(map(F, r)) + [F(b)] for r, b in zip(rows, rhs)]
+    scale = [max([abs(v) for v in r[:-1]] + [abs(r[-1]), F(1, 10 ** 30)]) for r in A]
+    piv_rows = []
+    r = 0
+    for c in range(n):
+        p = None
+        for i in range(r, m):
+            if A[i][c] != 0:
+                p = i
+                break
+        if p is None:
+            continue
+        A[r], A[p] = A[p], A[r]
+        scale[r], scale[p] = scale[p], scale[r]
+        pv = A[r][c]
+        A[r] = [v / pv for v in A[r]]
+        scale[r] = scale[r] / abs(pv)
+        for i in range(m):
+            if i != r and A[i][c] != 0:
+                f = A[i][c]
+                A[i] = [a - f * b for a, b in zip(A[i], A[r])]
+        piv_rows.append(c)
+        r += 1
+        if r == m:
+            break
+    rank = r
+    resid = F(0)
+    for i in range(rank, m):
+        # a redundant row reduced to 0 = b': relative residual
+        resid = max(resid, abs(A[i][-1]) / scale[i])
+    if rank < n:
+        return ('underdetermined',)
+    x = [A[i][-1] for i in range(n)]
+    return ('unique', x, resid)
